@@ -3,7 +3,7 @@
 From Coq Require Import String List NArith Bool.
 From J5V.lib Require Import Outcome Strcase.
 From J5V.model Require Import J5sAst Desc J5sWalk J5sLink J5sConvert J5sContract J5sValid J5sEdit J5sCorr.
-From J5V.proofs Require Import J5sProofs J5sContractProofs J5sEditProofs J5sExtProofs J5sPkgExtProofs J5sC13Proofs J5sWitnessProofs.
+From J5V.proofs Require Import J5sProofs J5sContractProofs J5sEditProofs J5sExtProofs J5sExtBoolProofs J5sPkgExtProofs J5sC13Proofs J5sWitnessProofs.
 Import ListNotations.
 Local Open Scope N_scope.
 
@@ -127,6 +127,12 @@ Definition C13_full_statement : Prop :=
 Theorem C13_full : C13_full_statement.
 Proof. exact c13_full. Qed.
 Print Assumptions C13_full.
+
+(* the boolean test the correspondence evaluates on the REAL descriptors before and after every
+   generated edit list (J5sCorr.c13_check) is sound for the embedding relation of C13_full *)
+Theorem C13_embedding_checker_sound : forall D D', files_ext_b D D' = true -> files_ext D D'.
+Proof. exact files_ext_b_sound. Qed.
+Print Assumptions C13_embedding_checker_sound.
 
 (* non-vacuity of C13_full for deep targets: four edits - a field inside the inline object of an
    array's items, an option of the inline enum inside that, a field of a nested declaration, a
